@@ -129,7 +129,7 @@ type c11Result struct {
 	Idx      int      `json:"idx"`
 	Cfg      c11Cfg   `json:"cfg"`
 	Hung     bool     `json:"hung,omitempty"` // the run never returned: the child stops after this configuration
-	Status   string   `json:"status"` // rejected | ok | violation | inconclusive
+	Status   string   `json:"status"`         // rejected | ok | violation | inconclusive
 	Detail   string   `json:"detail,omitempty"`
 	Outcomes []string `json:"outcomes,omitempty"` // per run: success | failure
 }
